@@ -293,7 +293,53 @@ def stop_blocks(b, call):
     return set()
 
 
+R4_ALLOW = {
+    ("<DiskCache>::get_file_path", "create_dir_all"): (1, "path helper without an error channel; a missing directory fails the write that follows, and that error is propagated"),
+}
+
+
+def r4_store_errors(ctx):
+    from .errflow import rule_persist
+    rule_persist(ctx, "C10.R4", "cascette_cache", None, R4_ALLOW, 28, "cascette-cache")
+
+
+STORE_FN = re.compile(r"::(put|put_with_ttl|put_validated|put_to_layer|put_with_validation|put_with_validation_and_ttl)::\{closure#0\}$")
+STORE_CALL = re.compile(r"\b(DashMap|HashMap|BTreeMap|IndexMap)::<[^>]*>::insert$|::(put|put_with_ttl|put_validated|put_to_layer|put_with_validation|put_with_validation_and_ttl)$")
+
+
+def r5_put_stores(ctx):
+    """a single-key store that reports success has stored: every path from entry to an `Ok(..)` return passes a map insert on
+    the cache's own index or a delegated put on a layer. (An early `return Ok(())` in front of the store - for empty values, for
+    'uninteresting' keys - makes the next get return the previous value or nothing.)"""
+    from .lib import assigns_variant
+    rule = "C10.R5"
+    ctx.rule(rule, "put / put_with_ttl / put_validated / put_to_layer / put_with_validation*: every path to an Ok return passes the store "
+                   "(map insert on the cache's index, or the delegated put of a layer)")
+    bodies = [b for b in ctx.prog.bodies.values() if b.krate == "cascette_cache" and b.coroutine and STORE_FN.search(b.id)]
+    ctx.floor(rule, len(bodies), 12, "single-key store bodies in cascette-cache")
+    n_ok = 0
+    for b in bodies:
+        ctx.saw(b)
+        stores = {c.bb for c in b.calls if STORE_CALL.search(c.name) or STORE_CALL.search(c.orig_name or "")}
+        if not ctx.anchor(rule, stores, "store call (map insert or delegated put) in %s" % b.id):
+            continue
+        oks = set(assigns_variant(b, "Ok", adt_pat=r"result::Result"))
+        if not oks:
+            # tail delegation: the value returned is the delegate's own result
+            ctx.ok(rule, [b.id, "delegates"], "returns the result of the delegated store", b.loc(), nontrivial=False)
+            continue
+        n_ok += 1
+        leak = b.reachable([0], avoid=stores) & oks
+        ctx.check(not leak, rule, [b.id, "ok-after-store"], "every Ok return is behind the store",
+                  "%s can return Ok without having stored anything: a path from the entry reaches the success return and passes neither the index "
+                  "insert nor a delegated put, so a later get returns the value stored before (or nothing)" % ctx._stable(b.id), b.loc(),
+                  sample={"fn": b.id, "store_blocks": len(stores), "ok_returns": len(oks)})
+    ctx.floor(rule, n_ok, 4, "store bodies with an own Ok return")
+
+
 def run(ctx):
+    r4_store_errors(ctx)
+    r5_put_stores(ctx)
     r1_limits(ctx)
     r2_expiry(ctx)
     r3_books(ctx)
